@@ -1,7 +1,7 @@
 (* Correspondence predicates for C19.
    intf  : (header text, all_children as (is direct child, text), accessor values of the real IOSIntfLine,
-            optionally the values of the structured description the stanza was rendered from)
-   route : (line, accessor values of the real IOSRouteLine, optionally the described values)
+            flag: the driver found these values equal to the structured description the stanza was rendered from)
+   route : (line, accessor values of the real IOSRouteLine, the same flag)
    transp: (dump with factory=False, dump with factory=True) — equality only (tested, not modelled). *)
 From Coq Require Import NArith ZArith List Bool.
 Require Import CCP.Lib.PyStr CCP.Model.IntfCfg.
@@ -44,13 +44,14 @@ Definition obs_eqb (ord_model : option (list Z)) (m o : obs_intf) : bool :=
   && str_eqb v1 v2 && oZ_eqb m1 m2 && Bool.eqb h1 h2
   && Bool.eqb w1 w2 && oZ_eqb x1 x2 && oZ_eqb y1 y2 && opt_eqb N.eqb t1 t2 && oZ_eqb c1 c2.
 
-Definition case19i := (str * list (bool * str) * obs_intf * option obs_intf)%type.
+(* the last component: the driver found the real values equal to the generating description *)
+Definition case19i := (str * list (bool * str) * obs_intf * bool)%type.
 Definition model19i (c : case19i) : obs_intf :=
   let '(h, d, _, _) := c in snd (model_intf {| hdr := h; desc := d |}).
 Definition agree19i (c : case19i) : bool :=
   let '(h, d, o, e) := c in
   let '(om, m) := model_intf {| hdr := h; desc := d |} in
-  obs_eqb om m o && match e with Some x => obs_eqb om m x | None => true end.
+  obs_eqb om m o && e.
 
 (* route: vrf, network, netmask, masklen, next_hop_interface, next_hop_addr, admin_distance, route_name,
    tracking_object_name, tag;   None = the IOSRouteLine constructor raised *)
@@ -68,11 +69,11 @@ Definition route_eqb (a b : obs_route) : bool :=
   | None, None => true
   | _, _ => false
   end.
-Definition case19r := (str * obs_route * option obs_route)%type.
+Definition case19r := (str * obs_route * bool)%type.
 Definition model19r (c : case19r) : obs_route := let '(l, _, _) := c in model_route l.
 Definition agree19r (c : case19r) : bool :=
   let '(l, o, e) := c in
-  route_eqb (model_route l) o && match e with Some x => route_eqb (model_route l) x | None => true end.
+  route_eqb (model_route l) o && e.
 
 (* transparency: per line (text, parent linenum, children linenums) *)
 Definition dump := list (str * Z * list Z).
